@@ -660,8 +660,13 @@ def execute(plan, ctx):
                     pass
                 sys.stderr, sys.stdout = stderr, stdout
                 sys.dont_write_bytecode = old_dwb
-                for name in [n for n in sys.modules if n == "pkg" or n.startswith("pkg.")]:
+                for name in [n for n in sys.modules if n in ("pkg", "_pkg") or n.startswith(("pkg.", "_pkg."))]:
                     del sys.modules[name]
+                import importlib
+
+                importlib.invalidate_caches()
+                for key in [k for k in sys.path_importer_cache if k.startswith(root)]:
+                    del sys.path_importer_cache[key]
             after = (snapshot(repo, root, tmpdir), snapshot(main_repo, root, tmpdir) if main_repo != repo else None)
             ctx.log("op", (oi, op["op"], op.get("ref", op.get("against")), outcome, tuple(shim.sites), counter["n"]))
             trace.append((op["op"], outcome, tuple(sorted(f["kind"] + ":" + str(f.get("how", f.get("at", ""))) for f in faults))))
